@@ -237,7 +237,8 @@ def run_c16(ctx, spec):
                                            model=(mm["model"] or "")[:200], cls=mm["cls"]))
     for k, v in drift.items():
         print(f"MODEL-DRIFT level=L1 class={k} cases={v} (diagnostic for C16; verdict-bearing for C08/C15)")
-    fails.sort(key=lambda f: (len(f["src"]) + len(f["text"]), f["id"]))
+    # literal+text cases (L6) first, smallest first; then token-level differences
+    fails.sort(key=lambda f: (0 if f["b"] else 1, len(f["src"]) + len(f["text"]), f["id"]))
     seen = set()
     for f in fails:
         key = _key(f["src"], f["text"])
@@ -269,7 +270,11 @@ def replay_c16(ctx, spec, obj):
     print("source :", src.decode("latin1"))
     print("tokens :", tok.strip()[:400])
     if not b:
-        return 0
+        exp = obj.get("expected", "")
+        print("model  :", exp[:400])
+        same = tok.strip()[:400] == exp[:400]
+        print("REPRODUCED" if not same else "not reproduced (agrees with the model now)")
+        return 0 if same else 1
     rc, o = C.sh([exe, "one", "run", "raw:x" + src.hex(), "raw:x" + text.hex()], timeout=60)
     cls, got = impl_matches(o.strip())
     exp = expected_matches(b, text)
